@@ -185,6 +185,8 @@ PROPS['C05'] = {
           '2 sections with non-decreasing (also equal) offsets, each with or without a 1-token map, any position, any section index'),
         H('c05_flatten_arith', 'types', 'quick', 900, 10,
           'lifted per-token body of flatten, any token, any offsets (also overflowing ones): returns without panic, never a wrapped position'),
+        H('c14_scope_n2', 'hermes', 'quick', 900, 10, 'Hermes scope lookup: any token (original line up to u32::MAX), 2 scope entries'),
+        H('c14_bytecode', 'hermes', 'quick', 1200, 10, 'Hermes bytecode-offset lookup, any offset'),
     ] + seg_harnesses([14, 8], [11]),
     'assumptions': ['post-parse stage only: inputs are the values serde_json would hand to the library, not bytes'] + SEG_ASSUME,
     'trusted': [S1],
@@ -300,4 +302,32 @@ PROPS['C16'] = {
     'trusted': [SV_STUBS, 'std::sync::Mutex as modelled by Kani (single-threaded lock/try_lock)'],
     'outside': ['memory-model effects of Ordering::Relaxed (the argument uses only the mutex happens-before)', 'real-thread stress',
                 'interleavings inside a critical section (excluded by the mutex)', 'deadlock freedom beyond: no call blocks on a lock it holds'],
+}
+
+PROPS['C14'] = {
+    'title': 'Hermes maps resolve tokens to the enclosing function their metadata describes',
+    'functions': ['hermes::SourceMapHermes::get_scope_for_token', 'hermes::SourceMapHermes::get_original_function_name',
+                  'types::DecodedMap::get_original_function_name (Hermes arm)', 'utils::greatest_lower_bound',
+                  'hermes::decode_hermes (body of the per-mapping loop of the function-map decoder, lifted at run time)'],
+    'harnesses': [
+        H('c14_scope_n%d' % n, 'hermes', 'quick' if n <= 3 else 'thorough', 900, 10,
+          'struct-literal Hermes map: 1 token (any ids/positions), 1-2 function-map slots (slot 0 absent/empty), %d sorted scope '
+          'entries (any u32 fields), 2 names' % n, nocover=(n == 0),
+          allow_uncovered=['first entry answers', 'later line than', 'name index out of range'] if n == 1 else None)
+        for n in (0, 1, 2, 3, 4, 5)
+    ] + [
+        H('c14_bytecode', 'hermes', 'quick', 1200, 10, '2 sorted scope entries, 1 token, any bytecode offset; DecodedMap with any line'),
+    ] + [
+        H('c14_fm_len%d' % n, 'hermes', 'quick' if n <= 5 else 'thorough', 900, 10,
+          'lifted function-map mapping body: every mapping text of exactly %d ASCII bytes x any previous (column, name_index, line)' % n,
+          allow_uncovered=['three fields', 'negative name-index'] if n == 1 else (['three fields'] if n == 2 else None))
+        for n in (1, 2, 3, 5, 9)
+    ],
+    'assumptions': ['scope entries sorted by (line, column) as decode_hermes produces them for well-formed function maps',
+                    'L1: loop headers of the function-map decoder (split(\';\'), split(\',\'), per-line column reset, initial line 1) are the harness\'s',
+                    'S1 (Vec::push)'],
+    'trusted': [S1, 'reference VLQ reader'],
+    'outside': ['per-line column reset and the initial line value of the function-map decoder (loop initialisers)',
+                'that a function map failing to parse leaves the whole map decodable end to end (needs decode_regular whole)',
+                'round trip through JSON', 'rewrite of Hermes maps'],
 }
